@@ -21,7 +21,8 @@ EXPLANATION = (
     "not tree equality for every input."
     " BUDGET: the parser's per-thread nesting budget guard charges only on the granted edge and its token's Drop gives the unit back (acceptance does not depend on earlier refusals)."
     " R5-look: a token's negative look-ahead over punctuation excludes nothing the following operand can begin with (FIRST sets over the reconstructed grammar)."
-    ' R4-ctor case-fold: keyword operators the grammar matches without regard to case are looked up case-folded by the tree constructor.')
+    ' R4-ctor case-fold: keyword operators the grammar matches without regard to case are looked up case-folded by the tree constructor.'
+    ' R5-blank also covers character-class parsers (digit1 ..) used directly as tokens of an expression rule.')
 RULE_TEXT = ("instances = (level, spelling) pairs, alt groups, token parsers, constructor arms; non-trivial = "
              "those needing a table comparison or dominance/shape argument")
 TRUSTED = ["nom ordered-choice/many0 semantics as documented", "rustc MIR construction", "milu/readme.md table is the documented grammar"]
@@ -38,6 +39,36 @@ TRANSPARENT = {"combinator::map", "combinator::cut", "combinator::recognize", "c
 PARAM_TOKEN_RULES = set()
 
 
+_PROG = [None]
+
+
+def _closure_parser(node):
+    """A parser written by hand: a closure `|i| { let (i, a) = P1(i)?; let (i, b) = P2(i)?; Ok((i, f(a, b))) }` applies parsers one
+    after the other on the success path and is the sequence P1 P2.  Returns the PEG of that sequence, or None when the closure is not
+    a straight chain of parser applications (then it stays unknown)."""
+    prog = _PROG[0]
+    if prog is None:
+        return None
+    cf = prog.fns.get("milu::" + node[1])
+    if cf is None:
+        return None
+    apps = [c for c in cf.calls if re.search(r"ops::function::(FnMut::call_mut|Fn::call|FnOnce::call_once)$|nom::internal::Parser::parse$", c.path or "")]
+    if not apps:
+        return None
+    apps.sort(key=lambda c: len([x for x in apps if cf.dominates(x.bb, c.bb)]))
+    for a, b in zip(apps, apps[1:]):
+        if not cf.dominates(a.bb, b.bb):
+            return None                      # alternatives / conditionally applied parsers: not a plain sequence
+    parts = []
+    for c in apps:
+        t = et.build(cf, c.args[0])
+        g = peg(t)
+        if g[0] == "unknown":
+            return None
+        parts.append(g)
+    return parts[0] if len(parts) == 1 else ("seq", parts)
+
+
 def peg(node):
     """expression tree -> PEG AST
     ('tok', s, nocase) ('ref', name) ('builtin', name) ('alt',[..]) ('seq',[..]) ('many', x) ('opt', x) ('ws', x)
@@ -48,6 +79,10 @@ def peg(node):
         if p.startswith("parser::"):
             return ("ref", p[len("parser::"):])
         return ("builtin", p)
+    if t == "closure":
+        g = _closure_parser(node)
+        if g is not None:
+            return g
     if t == "tuple":
         return ("seq", [peg(k) for k in node[1]])
     if t == "call":
@@ -335,6 +370,7 @@ def detect_param_token_rules(rule_fns):
 
 
 def run(chk, prog):
+    _PROG[0] = prog
     # the parser's nesting budget is per thread: what is accepted must not depend on what the thread refused before
     from . import depthguard
     depthguard.rule_balanced(chk, prog, "BUDGET", "milu", "parser.rs", 1,
@@ -760,6 +796,9 @@ def run(chk, prog):
         t = p[0]
         if t == "tok":
             report(name, p, at_head or under_ws)
+        elif t in ("builtin", "cls") and re.search(r"(digit[01]|alpha[01]|alphanumeric[01]|hex_digit[01]|oct_digit[01]|is_a|is_not|take_while1?|take_till1?|one_of|none_of|anychar|satisfy|char)$", str(p[1]) if t == "builtin" else "one_of"):
+            # a character-class parser used directly as a token of an expression rule is a token like any literal
+            report(name, ("tok", "<%s>" % (str(p[1]).rsplit("::", 1)[-1] if t == "builtin" else "one_of")), at_head or under_ws)
         elif t == "ws":
             check_tokens(name, p[1], at_head, True, report)
         elif t == "alt":
